@@ -6,9 +6,6 @@
 import RsjProofs.ThunkLe
 namespace Rsj.Thunk
 
-/-- No evaluation is under way (the store is observed between requests). -/
-def Quiet (s : St) : Prop := ∀ u, s.st u ≠ some .inProgress
-
 /-- **Consistent store**: quiescent, and memoisation-consistent. This is the
     invariant of a long-lived program state between requests. -/
 structure Cons (c : Code) (s : St) : Prop where
